@@ -35,13 +35,24 @@ fn window_sum(evs: &[Ev], now: u64, res: Option<usize>, kind: u8, rt: bool) -> u
     s
 }
 
-/// shape: p0 = op count, p1 = 1 if a flow rule (threshold symbolic) is loaded on r0, p2 = isolation threshold on r1 (0 = none)
+/// shape: p0 = op count, p1 = 1 if a flow rule (threshold symbolic) is loaded on r0 (2: a throttling rule, so that entries queue), p2 = isolation threshold on r1 (0 = none)
 pub fn c04_accounting(s: Shape) {
     let ops = s.p[0] as usize;
     let names = [String::from("c04-in"), String::from("c04-out")];
     let mut t = vrt::any_u64("t0", T0 + 9000, T0 + 9499);
     clock::arm(t * 1_000_000);
-    let thr = if s.p[1] != 0 {
+    let thr = if s.p[1] == 2 {
+        // a throttling rule (10 per second, queueing up to 500 ms): entries that are made to wait are passes too
+        flow::load_rules(crate::util::vec1(Arc::new(flow::Rule {
+            id: "f".into(),
+            resource: names[0].clone(),
+            threshold: 10.0,
+            control_strategy: flow::ControlStrategy::Throttling,
+            max_queueing_time_ms: 500,
+            ..Default::default()
+        })));
+        10
+    } else if s.p[1] != 0 {
         let thr = vrt::any_u64("thr", 0, 4);
         flow::load_rules(crate::util::vec1(Arc::new(flow::Rule {
             id: "f".into(),
@@ -66,7 +77,7 @@ pub fn c04_accounting(s: Shape) {
     let mut open: Vec<(EntryStrongPtr, usize, u64, u64)> = Vec::new(); // entry, res, batch, start
     let mut inflight = [0u32; 2];
     for step in 0..ops {
-        let gap = vrt::any_u64("gap", 0, 1200);
+        let gap = vrt::any_u64("gap", 0, if s.p[1] == 2 { 300 } else { 1200 });
         t += gap;
         clock::set_ns(t * 1_000_000);
         let do_exit = !open.is_empty() && vrt::any_bool("exit");
@@ -77,18 +88,28 @@ pub fn c04_accounting(s: Shape) {
             evs.push(Ev { t, res: r, inbound: r == 0, kind: 2, n, rt: t - st });
             inflight[r] -= 1;
         } else {
-            let r = if vrt::any_bool("res") { 1 } else { 0 };
+            let r = if s.p[1] != 2 && vrt::any_bool("res") { 1 } else { 0 };
             let n = vrt::any_u64("batch", 1, 3);
             let b = EntryBuilder::new(names[r].clone())
                 .with_resource_type(ResourceType::Common)
                 .with_traffic_type(if r == 0 { TrafficType::Inbound } else { TrafficType::Outbound })
                 .with_batch_count(n as u32);
-            match b.build() {
+            let arrived = t;
+            let built = b.build();
+            if s.p[1] == 2 {
+                // a queued entry was held: the clock moved, and the pass is recorded when the wait is over
+                let now = clock::now_ns().unwrap() / 1_000_000;
+                if now > t {
+                    vrt::cover("queued");
+                }
+                t = now;
+            }
+            match built {
                 Ok(e) => {
                     vrt::cover("pass");
                     evs.push(Ev { t, res: r, inbound: r == 0, kind: 0, n, rt: 0 });
                     inflight[r] += 1;
-                    open.push((e, r, n, t));
+                    open.push((e, r, n, arrived));
                 }
                 Err(_) => {
                     vrt::cover("block");
